@@ -286,6 +286,9 @@ theorem actLoopC_er (t : Table) (mode : Nat) (p input : List Nat) (m : Pass.Matc
         · simp only [hom, Bool.false_eq_true, ↓reduceIte]
           by_cases hcp : (Pass.ins p ic == pass_copy) = true
           · simp only [hcp, ↓reduceIte]
+            by_cases hguard : (decide (dsr - dsm > 0) && decide (dsr + (dsr - dsm) > max)) = true
+            · simp only [hguard, ↓reduceIte, erA, h]
+            simp only [hguard, Bool.false_eq_true, ↓reduceIte]
             have ho1 : er (if dsr - dsm > 0 then moveOut o dsm dsr else o) = er (if dsr - dsm > 0 then moveOut o' dsm dsr else o') := by
               split
               · exact moveOut_er o o' dsm dsr h
